@@ -29,7 +29,7 @@ func init() {
 			"the merger's sleep test, the persister's ping test, ExecuteBatch's back-pressure test – must also consult the stack's children (isEmpty / childSegStacks): a batch that only touches child " +
 			"collections adds nothing to top.a.",
 		Props: []string{"C20", "C16"},
-		Floor: 2,
+		Floor: 1,
 		Run:   ruleCov2,
 	})
 	register(&Rule{
